@@ -27,6 +27,7 @@ OPT_THEOREMS = ["Nmfu.C05_simplify_else_preserves", "Nmfu.C05_simplify_else_pres
 REMOVE_THEOREMS = ["Nmfu.C05_remove_states_preserves", "Nmfu.dispatch_sim", "Nmfu.armTree_sim", "Nmfu.Acts.tree_sim",
                    "Nmfu.removeStates_renOK", "Nmfu.closedUnder_sound", "Nmfu.dispatch_mono", "Nmfu.C05_remove_states_call"]
 PASS_CFGS = ("O3", "O0+simplify", "O0+remove", "O1")
+CHAIN_CFGS = ("O0+simplify", "O0+remove", "O1")   # settings under which no unmirrored pass modifies the table
 
 
 def optpasses_name(kind):
@@ -99,7 +100,8 @@ def work(job):
             plog = []
             with optpasses.record(plog if name in PASS_CFGS else None):
                 o = compile_program(prog["src"], args + prog["args"], codegen=False,
-                                    want_pre=(lambda self: export_machine(self)) if name == "O3" else None)
+                                    want_pre=(lambda self: export_machine(self)) if name in PASS_CFGS else None)
+            chain_all = True
             for rec in plog:
                 j = optpasses.judge(_model, rec)
                 j["cfg"] = name
@@ -113,7 +115,18 @@ def work(job):
                     j["equiv_detail"] = r[:1200]
                 else:
                     j.pop("raw", None)
+                chain_all = chain_all and bool(j.get("same")) and bool(hyp)
                 res["passes"].append(j)
+            if name in CHAIN_CFGS and o.ok and o.pre and plog and len(plog) < 12:
+                # only mirrored passes run under these settings: the snapshots must form one chain from the machine
+                # `convert` built to the machine the code generator gets, so that the final machine IS the mirrors
+                # applied in turn to the first — every link covered by its theorem when `chain_all`
+                final = export_machine(o.dctx)
+                links = [o.pre] + [x for rec in plog for x in (rec["before"], rec["after"])] + [final]
+                contiguous = all(links[k] == links[k + 1] for k in range(0, len(links), 2))
+                res.setdefault("chains", []).append({"cfg": name, "invocations": len(plog), "contiguous": contiguous,
+                                                     "by_theorem": contiguous and chain_all,
+                                                     "starts_from_O0_machine": o.pre == ta})
             if not o.ok:
                 res["pairs"].append({"cfg": name, "verdict": "verdict-differs", "detail": repr(o)})
                 continue
@@ -307,6 +320,15 @@ def main():
                 continue
             stats["accepted"] += 1
             prog_r = byname[r["name"]]
+            for c in r.get("chains", []):
+                cs = stats.setdefault("pass_chains", {}).setdefault(c["cfg"], {"compilations": 0, "contiguous": 0, "whole_optimisation_by_theorem": 0, "starts_from_the_O0_machine": 0})
+                cs["compilations"] += 1
+                cs["contiguous"] += 1 if c["contiguous"] else 0
+                cs["whole_optimisation_by_theorem"] += 1 if c["by_theorem"] else 0
+                cs["starts_from_the_O0_machine"] += 1 if c.get("starts_from_O0_machine") else 0
+                if not c["contiguous"]:
+                    # something other than the mirrored passes changed the table between two snapshots
+                    ck.notes.append({"pass_chain_gap": r["name"], "cfg": c["cfg"]})
             for j in r.get("passes", []):
                 ps = stats.setdefault("pass_invocations", {}).setdefault(j["pass"], {
                     "observed": 0, "modifying": 0, "mirror_agrees": 0, "hypothesis_holds": 0, "by_theorem": 0, "by_certificate": 0})
